@@ -32,6 +32,8 @@ def main():
     demo = os.path.join(a.src, "demo_test.go")
     props = (a.props.split(",") if a.props else [meta["property"]])
     out = dict(meta)
+    for k in ("checks_run", "detected_by", "tier"):
+        out.pop(k, None)
     if not a.skip_confirm:
         wt = "/tmp/sc-%s-%d" % (a.name, os.getpid())
         sh("git -C /repo worktree add --detach %s HEAD -q" % wt)
@@ -85,8 +87,9 @@ def main():
     out["detected_by"] = detected
     dst = os.path.join(ROOT, "seeded", a.name)
     os.makedirs(dst, exist_ok=True)
-    shutil.copy(patch, os.path.join(dst, "patch.diff"))
-    shutil.copy(demo, os.path.join(dst, "demo_test.go"))
+    if os.path.abspath(a.src) != os.path.abspath(dst):
+        shutil.copy(patch, os.path.join(dst, "patch.diff"))
+        shutil.copy(demo, os.path.join(dst, "demo_test.go"))
     json.dump(out, open(os.path.join(dst, "meta.json"), "w"), indent=1)
     print("%s: %s  %s" % (a.name, "DETECTED by " + ",".join(detected) if detected else "MISSED", {p: (r["exit"], r["first_sig"][:140]) for p, r in res.items()}))
 
